@@ -45,7 +45,9 @@ func compare(file []byte, tracks []mp4build.Track, lay mp4build.ProgLayout, trut
 			nrMdat++
 		}
 	}
-	if m.NrMdat != nrMdat || m.MdatPayloadStart != truth.MdatPayloadStart || m.MdatPayloadSize != truth.MdatPayloadSize || m.MdatStart != truth.MdatStart {
+	if truth.MdatPayloadSize == 0 && nrMdat > 1 && m.NrMdat == nrMdat {
+		// only empty samples: the parser cannot tell the media data box from the extra empty ones
+	} else if m.NrMdat != nrMdat || m.MdatPayloadStart != truth.MdatPayloadStart || m.MdatPayloadSize != truth.MdatPayloadSize || m.MdatStart != truth.MdatStart {
 		return fmt.Errorf("mdat: parsed %d/%d/%d, truth %d/%d/%d", m.MdatStart, m.MdatPayloadStart, m.MdatPayloadSize,
 			truth.MdatStart, truth.MdatPayloadStart, truth.MdatPayloadSize)
 	}
@@ -129,6 +131,27 @@ func compare(file []byte, tracks []mp4build.Track, lay mp4build.ProgLayout, trut
 		if (tb.UniformSize != 0) != mp4build.IsUniform(tr, tl) {
 			return fmt.Errorf("track %d: uniform size %d, expected uniform=%v", ti, tb.UniformSize, mp4build.IsUniform(tr, tl))
 		}
+		// zero-count entries are as listed in the layout; the other checks look at the remaining entries
+		var stts []tablemodel.SttsEntry
+		var ctts []tablemodel.CttsEntry
+		for _, e := range tb.Stts {
+			if e.Count != 0 {
+				stts = append(stts, e)
+			}
+		}
+		for _, e := range tb.Ctts {
+			if e.Count != 0 {
+				ctts = append(ctts, e)
+			}
+		}
+		wantCttsZero := len(tl.CttsZero)
+		if tl.CttsVersion < 0 {
+			wantCttsZero = 0
+		}
+		if len(tb.Stts)-len(stts) != len(tl.SttsZero) || len(tb.Ctts)-len(ctts) != wantCttsZero {
+			return fmt.Errorf("track %d: %d/%d zero-count stts/ctts entries, layout has %d/%d", ti, len(tb.Stts)-len(stts), len(tb.Ctts)-len(ctts), len(tl.SttsZero), wantCttsZero)
+		}
+		tb.Stts, tb.Ctts = stts, ctts
 		if tl.NoMerge {
 			if len(tb.Stts) != n || len(tb.Stsc) != len(tl.ChunkSizes) || (tl.CttsVersion >= 0 && len(tb.Ctts) != n) {
 				return fmt.Errorf("track %d: NoMerge but %d stts / %d ctts / %d stsc entries", ti, len(tb.Stts), len(tb.Ctts), len(tb.Stsc))
@@ -218,6 +241,61 @@ func TestProgressiveRoundTrip(t *testing.T) {
 	})
 }
 
+// TestProgressiveRoundTripExt: the same with the opt-in extensions (empty samples, zero durations in the
+// middle, zero-count table entries, chunks of a track out of order in the mdat).
+func TestProgressiveRoundTripExt(t *testing.T) {
+	seen := map[string]int{}
+	rapid.Check(t, func(rt *rapid.T) {
+		tracks := mp4build.GenTracks(rt, mp4build.GenOpt{MaxSamples: 30, AllowFinalZeroDur: true, AllowZeroSize: true, AllowZeroDur: true,
+			StsdEntries: rapid.IntRange(1, 2).Draw(rt, "stsdEntries")})
+		lay := mp4build.GenProgLayout(rt, tracks)
+		for ti := range tracks {
+			mp4build.GenZeroRuns(rt, tracks[ti], &lay.Tracks[ti])
+			if len(lay.Tracks[ti].SttsZero) > 0 {
+				seen["stts-zero"]++
+			}
+			if len(lay.Tracks[ti].CttsZero) > 0 {
+				seen["ctts-zero"]++
+			}
+			for i, s := range tracks[ti].Samples {
+				if len(s.Data) == 0 {
+					seen["zero-size"]++
+				}
+				if s.Dur == 0 && i < len(tracks[ti].Samples)-1 {
+					seen["zero-dur"]++
+				}
+			}
+		}
+		mp4build.GenSwapChunks(rt, &lay)
+		if lay.UnorderedChunks {
+			seen["unordered"]++
+		}
+		file, truth, err := mp4build.BuildProgressive(tracks, lay)
+		if err != nil {
+			rt.Fatalf("BuildProgressive: %v", err)
+		}
+		if err := compare(file, tracks, lay, truth); err != nil {
+			rt.Fatalf("%v", err)
+		}
+		if lay.UnorderedChunks {
+			inc := true
+			for _, tt := range truth.Tracks {
+				for i := 1; i < len(tt.ChunkOffset); i++ {
+					inc = inc && tt.ChunkOffset[i] >= tt.ChunkOffset[i-1]
+				}
+			}
+			if !inc {
+				seen["offsets-not-increasing"]++
+			}
+		}
+	})
+	for _, k := range []string{"stts-zero", "ctts-zero", "zero-size", "zero-dur", "unordered", "offsets-not-increasing"} {
+		if seen[k] == 0 {
+			t.Errorf("class %s never generated", k)
+		}
+	}
+}
+
 // TestBuildRejectsInconsistent: layouts that cannot represent the model are refused.
 func TestBuildRejectsInconsistent(t *testing.T) {
 	v, _, err := mp4build.DefaultStsd()
@@ -251,6 +329,11 @@ func TestBuildRejectsInconsistent(t *testing.T) {
 			lay.ChunkOrder = [][2]int{{0, 1}, {0, 0}}
 		},
 		func(tr []mp4build.Track, lay *mp4build.ProgLayout) { lay.Tracks[0].DescIDs = []uint32{0} },
+		func(tr []mp4build.Track, lay *mp4build.ProgLayout) {
+			lay.Tracks[0].ChunkSizes = []int{1, 1}
+			lay.ChunkOrder = [][2]int{{0, 1}, {0, 1}}
+			lay.UnorderedChunks = true
+		},
 	}
 	for i, mut := range bad {
 		tr, lay := mk()
